@@ -154,6 +154,7 @@ class hid:
             self._log.debug("connection limit reached")
             self._reconnect_count = 0
             self._reconnect_task = None
+            self.connection_status_callback._invoke("failed")
             return
         await asyncio.sleep(self._reconnect_interval)
         self._reconnect_task = None
@@ -449,7 +450,12 @@ class tridonic(hid):
                 self._log.debug(f"waiting for {outstanding_transmissions=} "
                                 "{response=}")
                 if len(messages) == 0:
-                    await event.wait()
+                    try:
+                        await event.wait()
+                    except asyncio.CancelledError:
+                        # Don't leave the sequence number in use
+                        self._outstanding.pop(seq, None)
+                        raise
                     event.clear()
                 message = messages.pop(0)
                 if message == "fail":
